@@ -9,6 +9,7 @@ RULE = (
     "shifts and a BFS and compared as multisets with the returned coordinates. Sorter cases: planar point sets (circle, anisotropic ellipse, irregular "
     "spacing, clusters, collinear, duplicates, anisotropic grid ring, two rings) in random order, both search_for_optimal_start values; the monitor on the "
     "sorter (both bindings) demands a permutation of the input. Non-trivial = a conditional model with >= 100 cells, or >= 5 points; distinct by signature."
+    ' Also (shared workload with C02): a grid above 2**24 cells, a user-defined mixture family (modes side by side, 2x2, a second region of 1-3 cells), an oblique one-cell ridge, sorter inputs of 1 and 2 points.'
 )
 ASSUMPTIONS = [
     "boundary cell = region cell with one of its 3^n-1 neighbours outside the region or outside the grid",
